@@ -92,22 +92,34 @@ fn absolute_source_path(manifest_dir: &str, file_path: &str) -> PathBuf {
     let manifest_components: Vec<_> = manifest.components().collect();
     let file_components: Vec<_> = file.components().collect();
 
-    // Find the longest suffix of manifest_components that matches a prefix of file_components.
-    let mut overlap = 0;
+    // Find every suffix of manifest_components that matches a prefix of file_components.
+    let mut overlaps = Vec::new();
     for len in 1..=manifest_components.len().min(file_components.len()) {
         let suffix = &manifest_components[manifest_components.len() - len..];
         let prefix = &file_components[..len];
         if suffix == prefix {
-            overlap = len;
+            overlaps.push(len);
         }
     }
 
     // Workspace root = manifest_dir minus the overlapping suffix.
-    let workspace_root: PathBuf = manifest_components[..manifest_components.len() - overlap]
-        .iter()
-        .collect();
+    let resolve = |overlap: usize| -> PathBuf {
+        let workspace_root: PathBuf = manifest_components[..manifest_components.len() - overlap]
+            .iter()
+            .collect();
+        workspace_root.join(file)
+    };
 
-    workspace_root.join(file)
+    // A directory name can repeat by coincidence (e.g. a package directory called
+    // `tests`), so prefer the longest overlap whose result exists on disk, then no
+    // overlap at all; fall back to the longest overlap.
+    for &overlap in overlaps.iter().rev().chain(std::iter::once(&0)) {
+        let candidate = resolve(overlap);
+        if candidate.is_file() {
+            return candidate;
+        }
+    }
+    resolve(overlaps.last().copied().unwrap_or(0))
 }
 
 /// Compute the byte offset of a (line, col) position within a source string.
